@@ -103,6 +103,8 @@ enum Op {
     Poll(usize),
     /// drop pending future idx % len before completion
     Drop(usize),
+    /// let (virtual) time pass while requests are pending
+    Adv(u64),
 }
 
 #[derive(Clone, Debug)]
@@ -127,6 +129,9 @@ fn gen_case(rng: &mut Rng, long: bool) -> Case {
     let mut ops = vec![];
     for _ in 0..n {
         let k = rng.below(10);
+        if rng.chance(1, 6) {
+            ops.push(Op::Adv(*rng.pick(&[1u64, 50, 999, 10_000, 59_999, 60_000, 60_001, 300_000])));
+        }
         ops.push(if k < 5 {
             Op::Call(*rng.pick(&[Script::ReadyOk, Script::ReadyErr, Script::PendingOk(1), Script::PendingErr(1), Script::PendingOk(3), Script::PendingErr(2)]))
         } else if k < 9 || !allow_drop {
@@ -234,6 +239,9 @@ fn run_case(case: &Case) -> Outcome {
                     }
                 }
             }
+            Op::Adv(ms) => {
+                sentinel_core::utils::verif_clock::advance_ns(*ms as i64 * 1_000_000);
+            }
             Op::Drop(k) => {
                 if pending.is_empty() {
                     continue;
@@ -303,6 +311,7 @@ fn main() {
     let opts = Opts::parse();
     common::install_panic_capture();
     let mut rep = Report::new("C20", &opts);
+    sentinel_core::utils::verif_clock::install(common::T0_MS as i64 * 1_000_000 + (opts.shard as i64) * 3_600_000_000_000_000);
     let mut rng = opts.rng();
     let n = if opts.thorough() { 300_000 } else { 30_000 };
     let mut drops: Vec<String> = vec![];
